@@ -331,8 +331,15 @@ from aiuti.filelock import FileLock
 path, closed, how, pidfile = sys.argv[2], sys.argv[3], sys.argv[4], sys.argv[5]
 if closed != '-':
     os.close(int(closed))                   # a daemon-like process without one of its standard streams
+how, _, when = how.partition('@')
 l = FileLock(path)
-l.acquire()
+if when == 'between':
+    # the object has a history: it was used (twice) before, and the child is started while the lock is NOT held
+    for _ in range(2):
+        l.acquire()
+        l.release()
+elif when != 'before':
+    l.acquire()
 if how == 'popen':
     pid = subprocess.Popen(['sleep', '30'], close_fds=False).pid
 elif how == 'fork':
@@ -345,6 +352,8 @@ elif how == 'fork':
         os._exit(0)
 else:
     pid = os.spawnv(os.P_NOWAIT, '/bin/sleep', ['sleep', '30'])
+if when in ('between', 'before'):
+    l.acquire()                              # ... and is taken (again) afterwards: the holder dies holding it
 with open(pidfile, 'w') as f:
     f.write(str(pid))
 os.kill(os.getpid(), signal.SIGKILL)
@@ -381,7 +390,8 @@ def holder_with_child(out, closed, how):
             fresh.release()
         else:
             out.concrete.append({'case': case, 'what': 'the holder (standard stream %s closed) started a child process '
-                                 'with %s while holding the lock and was SIGKILLed: 3 s later the lock still cannot be '
+                                 'with %s (default: while holding the lock; @between: between two uses of the lock object, then took it again; '
+                                 '@before: before its first use) and was SIGKILLed while holding it: 3 s later the lock still cannot be '
                                  'acquired - the child keeps it alive' % (closed, how),
                                  'signature': {'kind': 'stuck-after-kill', 'part': 'holder-with-child'}})
         out.extra['worst_acquire_after_kill_s'] = round(max(out.extra.get('worst_acquire_after_kill_s', 0),
@@ -439,10 +449,10 @@ def run(ctx):
                     chunks.append((script, part, ncont, ctx.seed + g))
         if ctx.quick:
             chunks.append((script, idx[::7], 2, ctx.seed))
-    chunks += ([('queued', [False], [('0', 'popen'), ('-', 'spawnv'), ('-', 'fork')]),
-                ('queued', [True], [('1', 'spawnv'), ('2', 'popen'), ('0', 'fork')])]
+    chunks += ([('queued', [False], [('0', 'popen'), ('-', 'spawnv'), ('-', 'fork'), ('-', 'fork@between')]),
+                ('queued', [True], [('1', 'spawnv'), ('2', 'popen'), ('0', 'fork'), ('-', 'fork@before'), ('-', 'popen@between')])]
                if ctx.quick else
-               [('queued', [False, True], [(c, h) for c in ('-', '0', '1', '2') for h in ('popen', 'spawnv', 'fork')])] * 4)
+               [('queued', [False, True], [(c, h) for c in ('-', '0', '1', '2') for h in ('popen', 'spawnv', 'fork', 'fork@between', 'fork@before', 'popen@between', 'spawnv@between')])] * 4)
     out = run_chunks(_dispatch, chunks, 8 if ctx.quick else ctx.workers, limit_s=240 if ctx.quick else 1800)
     out.exhaustive = True
     return out
